@@ -10,7 +10,10 @@
 //	each   every type code with boundary-biased random payloads, one value per history
 //	shape  hand-picked shapes at the boundaries of the count and length fields, wide
 //	       maps whose keys collide in the backing hash table, deep chains
+//	deep   chains of 64 .. 20000 containers, logged by their spine (deep.go)
 //	rand   random streams of 1..3 values of depth <= 8
+//	mutenum, mut   ONE value object written, changed through the public mutators (on
+//	       itself or on a child obtained from it) and written again (obj.go)
 package c02
 
 import (
@@ -227,11 +230,66 @@ func shapes(c *core.Ctx, cas int) *valgen.Node {
 		return valgen.List(&valgen.Node{T: valgen.TBlob, Nil: true}, &valgen.Node{T: valgen.TIntArray, Nil: true},
 			&valgen.Node{T: valgen.TLongArray, Nil: true}, &valgen.Node{T: valgen.TFloatArray, Nil: true},
 			&valgen.Node{T: valgen.TTextArray, Nil: true}, &valgen.Node{T: valgen.TList, Nil: true}, valgen.Text(nil))
+	case 26: // keys whose FULL 32-bit hashes are identical: every group as a map of its own, in both orders
+		l := valgen.List()
+		for _, g := range valgen.FullHashGroups() {
+			m, rv := valgen.Map(), valgen.Map()
+			for i, k := range g {
+				m.Put([]byte(k), valgen.Decimal(int64(i)))
+				rv.Put([]byte(g[len(g)-1-i]), valgen.Text([]byte(k)))
+			}
+			l.Items = append(l.Items, m, rv)
+		}
+		return l
+	case 27, 28: // the same groups scattered over a wide map: they stay in one chain through every growth of the table
+		m := valgen.Map()
+		gs := valgen.FullHashGroups()
+		var ks []string
+		for _, g := range gs {
+			ks = append(ks, g...)
+		}
+		r.Shuffle(len(ks), func(i, j int) { ks[i], ks[j] = ks[j], ks[i] })
+		n := []int{120, 420}[cas-27]
+		for i := 0; len(m.Keys) < n; i++ {
+			if len(ks) > 0 && (i%3 == 0 || n-len(m.Keys) <= len(ks)) {
+				m.Put([]byte(ks[0]), small())
+				ks = ks[1:]
+			} else {
+				m.Put([]byte(fmt.Sprintf("w%d", i*13)), small())
+			}
+		}
+		return m
+	case 29: // nested: equal-hash keys at two levels, the inner maps under equal-hash keys of the outer one
+		gs := valgen.FullHashGroups()
+		m := valgen.Map()
+		for gi := 0; gi < 3 && gi < len(gs); gi++ {
+			g := gs[(gi*5+r.Intn(5))%len(gs)]
+			for i, k := range g {
+				in := valgen.Map()
+				h := gs[r.Intn(len(gs))]
+				for j, k2 := range h {
+					in.Put([]byte(k2), valgen.List(valgen.Int(int32(i*10+j))))
+				}
+				if !hasKey(m, k) {
+					m.Put([]byte(k), in)
+				}
+			}
+		}
+		return m
 	}
 	return nil
 }
 
-const nShapes = 26
+func hasKey(m *valgen.Node, k string) bool {
+	for _, x := range m.Keys {
+		if string(x) == k {
+			return true
+		}
+	}
+	return false
+}
+
+const nShapes = 30
 
 func Run(c *core.Ctx) error {
 	c.Rule = "tagged values built through the public constructors, written with value.WriteValue, read back with value.ReadValue and written again; " +
@@ -279,7 +337,7 @@ func Run(c *core.Ctx) error {
 					continue
 				}
 				r := c.Rng("each", cas)
-				o := &valgen.Opts{MaxWidth: 12, MaxBlob: 70000, Budget: new(int)}
+				o := &valgen.Opts{MaxWidth: 12, MaxBlob: 70000, Budget: new(int), FullHash: true}
 				*o.Budget = 30
 				n := valgen.RandOf(r, ty, 1, o)
 				t.Reset("each", cas, nil)
@@ -310,6 +368,15 @@ func Run(c *core.Ctx) error {
 		}
 	}
 
+	// ---- deep: chains of 64 .. 20000 containers ---------------------------------
+	if c.WantGen("deep") {
+		for cas, dc := range deepCases(c.Thorough()) {
+			if c.Want("deep", cas) {
+				deepValue(c, t, cas, dc, c.Pick(130, 520))
+			}
+		}
+	}
+
 	// ---- rand: random streams --------------------------------------------------
 	if c.WantGen("rand") {
 		nh := c.Pick(120, 2200)
@@ -321,7 +388,7 @@ func Run(c *core.Ctx) error {
 			k := 1 + r.Intn(3)
 			var nodes []*valgen.Node
 			for i := 0; i < k; i++ {
-				o := &valgen.Opts{MaxWidth: 40, MaxBlob: 300, Budget: new(int)}
+				o := &valgen.Opts{MaxWidth: 40, MaxBlob: 300, Budget: new(int), FullHash: true}
 				*o.Budget = 30 + r.Intn(120)
 				depth := 1 + r.Intn(8)
 				if cas%40 == 39 { // a few wide ones
@@ -340,6 +407,16 @@ func Run(c *core.Ctx) error {
 			if cas < 2 {
 				c.Sample(core.Ev{"gen": "rand", "case": cas, "values": len(nodes), "first": trunc(valgen.Proj(nodes[0]))})
 			}
+		}
+	}
+	// ---- mutenum, mut: one object written, changed and written again ------------
+	if c.WantGen("mutenum") || c.WantGen("mut") {
+		to := c.Trace("c02_obj", "Trace_ValueObj")
+		if c.WantGen("mutenum") {
+			mutEnum(c, to)
+		}
+		if c.WantGen("mut") {
+			mutRand(c, to)
 		}
 	}
 	return nil
